@@ -29,7 +29,7 @@ import (
 var mixNames = []string{"provider-requests", "legacy-server-requests", "relying-party-calls", "rs-te-client-calls-on-one-client",
 	"remote-key-set", "construct-providers-while-serving", "device-polls-on-storage-owned-state",
 	"remote-key-set-jwks-failing-flapping-unknown-kid-slow", "rp-verify-tokens-jwks-failing", "provider-requests-storage-faults",
-	"rp-rs-te-calls-endpoint-errors", "handler-values-overlapping-requests"}
+	"rp-rs-te-calls-endpoint-errors", "handler-values-overlapping-requests", "package-level-helpers"}
 
 var nMixes = len(mixNames)
 
@@ -84,7 +84,7 @@ func raceTier(w *emit.Writer, cfg drv.Config, extra map[string]any) []string {
 			sem <- struct{}{}
 			defer func() { <-sem }()
 			c := exec.Command(bin)
-			c.Env = append(os.Environ(), "C20_RACE_MIX="+strconv.Itoa(j.mix), "C20_RACE_SCALE="+strconv.Itoa(scale),
+			c.Env = append(os.Environ(), "C20_RACE_MIX="+strconv.Itoa(j.mix), "C20_RACE_SCALE="+strconv.Itoa(scale), "C20_RACE_ROT="+strconv.Itoa(int(cfg.Seed%1000)+j.round),
 				"GORACE=halt_on_error=0 exitcode=0")
 			out, err := c.CombinedOutput()
 			results[k] = result{string(out), err}
@@ -135,7 +135,7 @@ func foreignToken(tok string) string {
 	if len(parts) != 3 {
 		return tok
 	}
-	payload, _ := jose.ParseSigned(tok, []jose.SignatureAlgorithm{jose.ES256, jose.RS256})
+	payload, _ := jose.ParseSigned(tok, sigAlgs)
 	s, err := jose.NewSigner(jose.SigningKey{Algorithm: jose.ES256, Key: jose.JSONWebKey{Key: opfix.ECKey("c20-foreign"), KeyID: "unknown-kid"}}, nil)
 	if err != nil || payload == nil {
 		return tok
@@ -164,7 +164,7 @@ func kidlessToken(tok string) string {
 }
 
 func parse(tok string) *jose.JSONWebSignature {
-	jws, _ := jose.ParseSigned(tok, []jose.SignatureAlgorithm{jose.ES256, jose.RS256})
+	jws, _ := jose.ParseSigned(tok, sigAlgs)
 	return jws
 }
 
@@ -174,8 +174,19 @@ func raceChild() {
 	if s, err := strconv.Atoi(os.Getenv("C20_RACE_SCALE")); err == nil && s > 0 {
 		raceScale = s
 	}
+	// signing algorithms: every mix that creates or verifies id tokens (at_hash / c_hash) runs with OPs of the
+	// sha384 AND the sha512 family (and the default); which member of a family rotates with seed and round
+	rot, _ := strconv.Atoi(os.Getenv("C20_RACE_ROT"))
+	a256, a384, a512, a512b := algs256[rot%3], algs384[rot%3], algs512[rot%4], algs512[(rot+1+rot/4%3)%4]
 	savePristine()
-	w := newWorld(worldCfg{})
+	base := worldCfg{}
+	switch mix {
+	case 8, 11:
+		base.sigAlg = a512
+	case 10:
+		base.sigAlg = a384
+	}
+	w := newWorld(base)
 	idw = w
 	t := w.tokens()
 	other := jose.JSONWebKeySet{Keys: []jose.JSONWebKey{{Key: &opfix.ECKey("c20-third").PublicKey, KeyID: "third", Algorithm: "ES256", Use: "sig"}}}
@@ -214,28 +225,74 @@ func raceChild() {
 		})
 	}
 
+	// several clients of every credential kind on ONE provider: goroutine g is client g; the FIRST request of each
+	// (a jwt-bearer grant / private_key_jwt or secret authentication) arrives at once, then every request kind in
+	// every credential variant. A client's request answered as for another client (its own credential refused,
+	// a foreign one accepted) is counted like a race report.
+	var cmu sync.Mutex
+	wrongClient := 0
+	serveClients := func(i, caps int) {
+		h, eps := w.instHandler(i)
+		st := w.stores[2]
+		par(len(idents), 8, func(g, it int) {
+			cl := g
+			ks := kindsFor(idents[cl].cred, caps)
+			k, v := ks[(g+it)%len(ks)], 0
+			if it == 0 { // no preparation: the very first authenticated requests of all clients meet
+				k = map[bool]int{true: kBearer, false: kCode}[idents[cl].cred == credKey]
+			} else {
+				vs := variantsFor(k)
+				v = vs[(g*3+it)%len(vs)]
+			}
+			_, ok := sendClient(h, eps, cl, k, v, prepClient(h, eps, st, cl, k))
+			if ok != (v == 0 && k != kIntrospectOther) {
+				if debug {
+					fmt.Fprintln(os.Stderr, "c20 debug: wrong client answer", idents[cl].id, ckindNames[k], variantNames[v], "alg", sigAlgs[w.cfg.sigAlg], "caps", caps, "it", it)
+				}
+				cmu.Lock()
+				wrongClient++
+				cmu.Unlock()
+			}
+		})
+	}
+	defer func() {
+		if wrongClient > 0 {
+			fmt.Printf("WARNING: DATA RACE (c20: %d requests were answered as for another client: own credential refused or foreign credential accepted)\n", wrongClient)
+		}
+	}()
+
 	switch mix {
 	case 0: // one provider, every endpoint, from 8 goroutines
 		// ... in every optional-capability configuration; the FIRST requests of a fresh provider arrive at once
-		for _, caps := range []int{7, 0, 1, 5} {
+		for n, caps := range []int{7, 0, 1, 5} {
+			w.cfg.sigAlg = []int{a512, a384, a256, a512b}[n]
 			newProviderCaps(1, 2, []poptd{{"", func(w *world) op.Option { return op.WithCustomAuthEndpoint(w.customEps["auth"]) }}}, 0, caps, false).run(w)
 			h, eps := w.instHandler(1)
 			par(8, 2, func(g, it int) { get(h, oidc.DiscoveryEndpoint, nil); get(h, eps.JwksURI.Relative(), nil) })
+			serveClients(1, caps)
 			serve(1)
 		}
 	case 1: // one legacy server
-		for _, caps := range []int{7, 0, 4} {
+		for n, caps := range []int{7, 0, 4} {
+			w.cfg.sigAlg = []int{a384, a512b, a256}[n]
 			newLegacyCaps(1, 2, caps).run(w)
 			h, _ := w.instHandler(1)
 			par(8, 2, func(g, it int) { get(h, oidc.DiscoveryEndpoint, nil) })
+			serveClients(1, caps)
 			serve(1)
 		}
-	case 2: // one relying party on the default client
-		r, err := rp.NewRelyingPartyOIDC(bg, opfix.Issuer, "web", "web-secret", "https://web.example.com/cb", w.rpScopes, rp.WithVerifierOpts(w.rpVerOpts...))
-		if err != nil {
-			panic(err)
+	case 2: // one relying party on the default client, against OPs of every digest family
+		for n, a := range []int{0, a384, a512} {
+			if n > 0 {
+				w = newWorld(worldCfg{sigAlg: a})
+				t = w.tokens()
+			}
+			r, err := rp.NewRelyingPartyOIDC(bg, opfix.Issuer, "web", "web-secret", "https://web.example.com/cb", w.rpScopes, rp.WithVerifierOpts(w.rpVerOpts...))
+			if err != nil {
+				panic(err)
+			}
+			par(8, 10, func(g, it int) { rpCalls(w, r, t, g+it) })
 		}
-		par(8, 25, func(g, it int) { rpCalls(w, r, t, g+it) })
 	case 3: // resource server, token exchanger and bare client.Call* users on ONE caller-supplied client
 		clientMix(w, t)
 	case 4: // one remote key set, healthy JWKS endpoint
@@ -384,6 +441,25 @@ func raceChild() {
 		}
 		if wrong > 0 { // a request that carried another request's data counts like a race report
 			fmt.Printf("WARNING: DATA RACE (c20: %d requests carried another request's per-request data)\n", wrong)
+		}
+	case 12: // package-level helpers from 8 goroutines, every algorithm family; each value is compared with the
+		// one the standard library computes sequentially; a wrong value or a panic counts like a race report
+		var mu sync.Mutex
+		wrong := 0
+		par(8, 60, func(g, it int) {
+			ok := false
+			drv.Catch(func() {
+				a := (g + it) % len(sigAlgs)
+				ok = helperOK(it%4, a, helperArg(g*100+it)) && helperOK(1, 3+(g+it)%7, helperArg(g+it)) && helperOK(0, 3+(g*3+it)%7, helperArg(it))
+			})
+			if !ok {
+				mu.Lock()
+				wrong++
+				mu.Unlock()
+			}
+		})
+		if wrong > 0 {
+			fmt.Printf("WARNING: DATA RACE (c20: %d helper calls computed a wrong value or panicked)\n", wrong)
 		}
 	}
 	fmt.Println("c20-race-mix-done")
